@@ -5,7 +5,7 @@
                dead f p   every later next() raises StopIteration;
                quiet f p  no later next() returns a value (StopIteration, or an exception raised by an operand);
                f is the recursion fuel of the model, binop the operator semantics (arbitrary). *)
-From Isobar Require Import Base.Prelude Pat.Val Pat.Syntax Pat.Step Pat.StepProofs Pat.IterProofs Pat.StickyProofs.
+From Isobar Require Import Base.Prelude Pat.Val Pat.Syntax Pat.Step Pat.StepProofs Pat.IterProofs Pat.StickyProofs Pat.StickyConcat.
 From Coq Require Import String QArith.
 Open Scope Z_scope.
 
@@ -51,9 +51,17 @@ Section AnyOperators.
   Theorem C09_fragment_extends : forall p, sticky_pat p -> fpat p.
   Proof. exact sticky_fpat. Qed.
 
+  (* PConcatenate([x1 .. xn]) over patterns of the fragment, in ANY state: once it has raised StopIteration (it is then on
+     its last input, which has stopped) no later next() returns a value.  (PConcatenate as the ROOT of the expression;
+     PConcatenate nested under another class is still open.) *)
+  Theorem C09_sticky_concatenate : forall f l pos p',
+    (forall o x y, binop o x y <> Stop) ->
+    Forall farg l -> step binop LMAX f (PConcatenate (AL l) pos) = (Stop, p') -> forall f2, quiet binop LMAX f2 p'.
+  Proof. intros f l pos p' Hns. exact (concat_quiet binop LMAX Hns f l pos p'). Qed.
+
   (* for EVERY class of the model: a state that answers StopIteration without changing answers it for ever.
-     Full statement, open for the remaining finite classes (PConcatenate, PDict, PArrayIndex over a literal list, PSequence
-     with pattern items, PRound with pattern arguments), validated by the correspondence and the stickiness oracle only:
+     Full statement, open for the remaining finite classes (PConcatenate below another class, PDict, PArrayIndex over a
+     literal list, PSequence with pattern items, PRound with pattern arguments), validated by the correspondence and the stickiness oracle only:
        forall f p p', finite_fragment p -> no_pattern_valued_terminating_parameter p ->
                       step f p = (Stop, p') -> quiet f p'                                        *)
   Theorem C09_sticky_remaining_classes_partial : forall f p,
@@ -90,6 +98,7 @@ Print Assumptions C09_sticky.
 Print Assumptions C09_sticky_counter_classes.
 Print Assumptions C09_sticky_transformers.
 Print Assumptions C09_fragment_closed.
+Print Assumptions C09_sticky_concatenate.
 
 (* Python's operators never raise StopIteration, so C09_sticky applies to the concrete engine *)
 Theorem C09_sticky_python : forall LMAX f p p',
@@ -127,6 +136,16 @@ Example C09_transformers_nonvacuous :
 Proof.
   split; [|vm_compute; reflexivity].
   apply FP_pad, FA_pat, FP_stutter; [|apply FA_val]. apply FA_pat, FP_collapse, FA_pat, FP_subsequence, FA_pat, FP_loop.
+Qed.
+
+Example C09_concatenate_nonvacuous :
+  let l := [AP (seq_ [1; 2] 1); AP (PPad (AP (seq_ [3] 1)) (VInt 2) 0)] in
+  Forall farg l /\
+  fst (outputs Val.binop 100 30 6 (PConcatenate (AL l) 0)) = [Yield (VInt 1); Yield (VInt 2); Yield (VInt 3); Yield VNone; Stop; Stop].
+Proof.
+  split; [|vm_compute; reflexivity].
+  constructor; [apply FA_pat, FP_counter; reflexivity|].
+  constructor; [|constructor]. apply FA_pat, FP_pad, FA_pat, FP_counter; reflexivity.
 Qed.
 
 Example C09_helpers_nonvacuous :
